@@ -176,6 +176,21 @@ fn position_fees(rep: &mut Report, cli: &Cli) {
                                         if !order_ok || *o.fee_value() as u128 != fee_value || pool + rc != fee_amount || rc != recv {
                                             sink.fail_with("C02/order_fees/wrong_value", || (format!("order fees value {} pool {pool} receiver {rc}; exact value {fee_value} amount {fee_amount} receiver {recv}", o.fee_value()), rp()));
                                         }
+                                        // the aggregate split the order processing uses: pool share + receiver share = total cost (no funding here)
+                                        if rf <= UNIT {
+                                            match (fees.for_pool::<2>(), fees.for_receiver(), fees.total_cost_excluding_funding()) {
+                                                (Ok(fp), Ok(fr), Ok(total)) => {
+                                                    if fp as u128 + fr as u128 != total as u128 {
+                                                        sink.fail_with("C02/position_fees/aggregate_split_not_exact", || (format!("for_pool {fp} + for_receiver {fr} != total cost excluding funding {total}"), rp()));
+                                                    }
+                                                }
+                                                other => {
+                                                    if u64::try_from(fee_amount + liq_amount).is_ok() {
+                                                        sink.fail_with("C02/position_fees/aggregate_split_failed", || (format!("{other:?}"), rp()));
+                                                    }
+                                                }
+                                            }
+                                        }
                                         match (liq, fees.liquidation_fees()) {
                                             (false, None) => {}
                                             (true, Some(l)) => {
